@@ -83,6 +83,17 @@ class Src(object):
         return v
 
 
+class SizedLazy(object):
+    def __init__(self, src):
+        self.src = src
+
+    def __len__(self):
+        return len(self.src.values) if self.src.values is not None else 10 ** 6
+
+    def __iter__(self):
+        return self.src
+
+
 def mkval(i):
     return (V(i), {"i": i})
 
@@ -312,7 +323,7 @@ def pipeline_case(draw):
     if kind == "split_first":
         els = [draw(split_el)] + els[:3]
     n = draw(st.sampled_from(list(range(8, 21)) * 2 + list(range(4, 8)) * 2 + [3, 2, 1, 0]))
-    return {"els": els, "n": n, "driver": draw(st.sampled_from(["sequence", "source", "source_iter", "sequence", "sequence_list"])),
+    return {"els": els, "n": n, "driver": draw(st.sampled_from(["sequence", "source", "source_iter", "sequence", "sequence_list", "sequence_sized"])),
             "stop_after": draw(st.sampled_from([99, 99, 3, 1, 1, 2, 2, 0, 4, 5, 7, 9, 12]))}
 
 
@@ -322,6 +333,12 @@ def _run(case, src, log):
         s = Source(lambda: src, *[build_el(r, log) for r in els])
         check_idle(log, src, "construction", case)
         return s()
+    if case.get("driver") == "sequence_sized":
+        # a sized container whose iteration is lazy (a table, a tree wrapper): it has __len__ but must
+        # not be read before the consumer asks
+        s = build(els, log)
+        check_idle(log, src, "construction", case)
+        return s.run(SizedLazy(src))
     if case.get("driver") == "sequence_list":
         # the flow is a list (as RunIf, FillInto and Split hand it over)
         s = build(els, log)
